@@ -88,7 +88,7 @@ CHECKS["C02"] = {
     "explanation": "Lean RFC 7932 specification + component theorems + 3-way differential (dsnet, specification, libbrotlidec)",
 }
 CHECKS["C03"] = {
-    "families": ["bz", "bzst", "bzw"],
+    "families": ["bz", "bzr", "bzst", "bzw"],
     "trusted_base": [BZSPEC, "no Go-shaped model of bzip2.Reader's control flow: its stages are modelled one by one (bzst), the whole reader is compared with the specification (bz)"],
     "assumptions": ["SA-IS / inverse BWT pointer chasing are modelled at the level of their results"],
     "level_text": "partial: Lean theorems on the format specification and the stage models - C03_concatenated (complete streams back to back decode to the concatenation), C03_prefix_agrees (any cut of an accepted input: only a prefix, unexpected EOF or success exactly at a stream end, never corrupt/deprecated), C03_bwt_inverse, C03_mtf_roundtrip, C03_rle1_resumable (any Read schedule), C03_crc. bzip2.Reader = specification is a correspondence (Go reader vs Lean specification vs libbzip2 on synthesised streams incl. 20-bit codes, concatenations, deprecated headers and mutations), not a refinement proof.",
@@ -113,7 +113,7 @@ CHECKS["C08"] = {
     "explanation": "allocation and termination theorems on the models + recover/watchdog sweep",
 }
 CHECKS["C09"] = {
-    "families": ["fl", "bz", "life", "xo", "xk", "brr"],
+    "families": ["fl", "bz", "bzr", "life", "xo", "xk", "brr"],
     "trusted_base": [FLSPEC, BZSPEC, "error-site facts are regenerated from /repo by the go/ast extractor and pinned by theorem (Compress.Facts.Sites)"],
     "assumptions": ["I/O errors passed through verbatim: sweep with failing sources (families bio, life), no theorem"],
     "level_text": "partial: C09_error_sites_classified (every error site of /repo on a decoding path raises Corrupted/Deprecated or is a listed exception - regenerated on every run), C09_deflate_cut_is_ueof, C09_bzip2_cut_is_ueof and C09_brotli_cut_is_ueof (a valid stream cut at any byte: exactly unexpected EOF / never corrupt, on the three format specifications), C09_flate_classes (flate.Reader model ends with the class matching the specification), C09_xflate_sticky / C09_xflate_close / C09_xflate_seek_keeps / C09_flate_sticky (latched error: no data, same error, Close reports it). Sticky + Close for bzip2/brotli/meta Readers and verbatim I/O errors: sweep (call sequences, truncation at every byte through 11 source kinds, injected source errors at every position incl. a source that fails instead of reporting io.EOF, xflate streams with a damaged chunk).",
@@ -121,7 +121,7 @@ CHECKS["C09"] = {
     "explanation": "regenerated error-site facts + cut theorems + sticky lemmas + fault sweep",
 }
 CHECKS["C10"] = {
-    "families": ["bio", "fl", "brd", "brr", "bz", "meta", "life"],
+    "families": ["bio", "fl", "brd", "brr", "bz", "bzr", "meta", "life"],
     "trusted_base": ["bit reader model (both source modes, adversarial Buffered()) tied to /repo by scripted correspondence (family bio)"],
     "assumptions": ["Buffered() answers are stable between Peek/Discard/Read (a source that shrinks them is outside the BufferedReader contract)"],
     "level_text": "partial: C10_flate_read_sizes (any two Read schedules, zeros included: same bytes, same final error), C10_source_shape (ReadByte-only vs Peek/Discard with any Buffered() adversary: same fields = the plain bit list), C10_bzip2_read_sizes (resumable RLE1 for every schedule), C10_xflate_any_fragmentation (C07 for every inflater behaviour). Whole-reader independence for bzip2, brotli, flate and meta: sweep over 11 source kinds (with and without bytes after the stream) and Read-size schedules with zero-length buffers.",
